@@ -1,7 +1,7 @@
 PROPERTY = "C09"
 ENTRY = {
         "text": "Stats.tla (written from the statement: ghost ledger of (hour counted, category) vs. current unit + hourly buckets; actions Update, Tick, Flush, "
-                "Close, Open, SetLimit, SetEnabled, Clear, Read; hours kept relative to the observed hour, so the exhaustive run covers histories of every length) "
+                "Close, Open, SetLimit, SetEnabled, Clear, Read, FlushFails (I/O fault at the periodic step); hours kept relative to the observed hour, so the exhaustive run covers histories of every length) "
                 "is model-checked by TLC with 8 invariants of the statement (scaled-day configuration reaches the daily branch). "
                 "A: every labelled edge TLC emits (limits 2-3 h, <= 5 live queries, clock gaps 1..limit+1) is walked on the real StatsCtx "
                 "(bbolt file, injected UnitID clock, real HTTP handlers) with edge-covering tours; GET /control/stats is compared with the spec's admissible reply after every step. "
